@@ -8,21 +8,22 @@ def errName : Err → String
   | .valueError => "err:ValueError"
   | .parseException => "err:ParseException"
 
-def encParent : Option Nat → String
-  | none => "r"
-  | some j => toString j
+/-- parents as the shared tree model stores them (a root is its own parent); `r` for a root -/
+def encParents (ps : List Nat) : String :=
+  ",".intercalate ((ps.zipIdx).map (fun pi => if pi.1 = pi.2 then "r" else toString pi.1))
 
 /-- `brace conv <lines>` → `ok|<lines>|<parents>` or `err:<class>`:
-the texts `convert_junos_to_ios(lines)` returns and, per text, the index of its
-indentation parent (`r` for a root); `brace txt <lines>` → texts only. -/
+the texts and parent links of `CiscoConfParse(lines, syntax='junos')` (`junosParse`: the
+conversion followed by pass 1 of the shared bootstrap model, `r` for a root);
+`brace txt <lines>` → texts of `convert_junos_to_ios(lines)` only. -/
 def handle : List String → String
   | ["conv", ls] =>
     match decStrs ls with
     | none => "bad-request"
     | some lines =>
-      match junosToIos lines with
+      match junosParse lines with
       | .error e => errName e
-      | .ok out => "ok|" ++ encStrs out ++ "|" ++ ",".intercalate ((indentParents out).map encParent)
+      | .ok t => "ok|" ++ encStrs t.texts ++ "|" ++ encParents t.parents
   | ["txt", ls] =>
     match decStrs ls with
     | none => "bad-request"
